@@ -11,10 +11,11 @@ META = {'claimed': True,
                'concrete dotted-quad conversions), Unix paths, and IPv6 under the ASSUMED libc law pton6(ntop6 a) = Some a; bracketed literals with port resolve to the address they denote '
                '(C17_sock_addr_*, C17_resolve_*). JSON: on every well-formed object (any names incl. duplicates/prefixes/escapes/\\u, any values, any whitespace, any trailing bytes) and key, '
                'json_find returns the offset of the value of the FIRST member whose decoded name equals the key (names with \\u never match), else the end; also for every RFC 8259-valid object '
-               '(C17_json_find_correct, C17_json_find_correct_rfc8259, C17_json_find_spec_meaning; regression example for repaired defect F5). 30 theorems, unbounded in lengths and nesting. Bound to '
+               '(C17_json_find_correct, C17_json_find_correct_rfc8259, C17_json_find_spec_meaning; regression example for repaired defect F5). 32 theorems, unbounded in lengths and nesting. Bound to '
                "the C by correspondence runs (ASan; implementation = extracted model = Coq spec = Python's base64/struct/socket/json as a fourth opinion).",
  'level_note': 'Trusted: Coq kernel + vm_compute (table equalities); translators x_codec.py, x_codec2.py, x_json.py; inet_pton/inet_ntop for AF_INET6 and getaddrinfo are libc oracles whose inverse '
                'law is a stated premise (checked by differential execution); strchr modelled as first-index search; hand-written models bound by differential execution. Print Assumptions: closed '
-               'under the global context.',
+               'under the global context. Address round trips are for canonical structs (zero sin_zero / flowinfo / scope, zero-padded sun_path), SOCK_STREAM, ports 1..65535 and absolute Unix paths; '
+               'pton4, ntop4 and the %d of the port printer are hand models of libc; the port parser is proved equal to the C16 numeral parser (C17_parse_port_is_parsenum_spec / _model).',
  'trusted_base': ['transcription of RFC 4648 and the JSON grammar (RFC 8259) in coq/Util/*Spec.v, JsonRfc.v', 'libc inet_pton/inet_ntop(AF_INET6) inverse law (premise)'],
  'assumptions': ['host-name forms that reach the resolver are outside the property (numeric and Unix-path forms only)']}
